@@ -2,6 +2,8 @@ import RichModel.Lemmas.AnsiForeign
 import RichModel.Lemmas.AnsiLegacy
 import RichModel.Lemmas.AnsiCsi
 import RichModel.Lemmas.AnsiLiveStreams
+import RichModel.Lemmas.AnsiParams
+import RichModel.Lemmas.AnsiProxyApi
 import RichModel.Props.C10
 /-!
 # C19 — the ANSI decoder inverts the truecolor encoder, and redirected output is never lost
@@ -22,6 +24,9 @@ trip `decode_encode` holds for every variant (the encoder never writes anything 
 Proofs: `Lemmas/AnsiTables`, `AnsiSgr`, `AnsiState`, `AnsiColor`, `AnsiEncode`, `AnsiTok`, `AnsiRound`, `AnsiRoundTrip`,
 `AnsiLine` (round trip, totality), `AnsiProxy` (proxy against `units`), `AnsiEcma`, `AnsiForeign` (ECMA-48 reading of SGR),
 `AnsiCsi` (other CSI, carriage returns), `AnsiLegacy`, `AnsiLive`, `AnsiLiveStreams` (the proxy inside C10's display).
+Fourth round: `AnsiParams` (every SGR parameter the encoder can emit, fed to the decoder: exhaustive over the finite forms,
+symbolic for `38;2;r;g;b`; exact reset) over `Model/AnsiParams.lean`, and `AnsiProxyApi` (`write` of a non-`str`, `writelines`,
+no-op `flush`) over `Model/AnsiProxyApi.lean`.
 
 A carriage return that is NOT at the end of a line is outside the statement: `decode_line` keeps what follows the
 last one ("what is visible after the cursor returned": `10%\r50%\r100%` → `100%`), which is what the code means
@@ -477,5 +482,79 @@ example : units [.write ['a'], .write ['b', '\n', 'c'], .flush false, .flush fal
 
 example : (run Ansi.Cfg.repaired Proxy.init [.write ['a'], .write ['b', '\n', 'c'], .flush false, .write ['\n']]).2.length = 3 := by
   decide +kernel
+
+/-! ## Every SGR parameter the encoder can emit is decoded (function level, exhaustive over the finite parts) -/
+
+/-- **encoder_sgr_params_decoded.**  On the tables translated from the working tree, for the code as it is now and as
+found: for each of the 13 attributes, `Style(attr=False)` writes no parameter and `Style(attr=True)` writes one
+non-empty parameter text which `decode_line` (a fresh decoder: `sgrCodes`, then the loop `applyCodes`) reads back as a
+style with exactly that attribute set and on, no colour, no link; for every palette number `n ≤ 255`, foreground and
+background, what `Color.from_ansi(n)` makes the encoder write (30-37 / 90-97 / 40-47 / 100-107 below 16, `38;5;n` /
+`48;5;n` above) is read back as exactly `from_ansi(n)` on that side and nothing else, and so is the explicit form
+`38;5;n` / `48;5;n` for EVERY `n` (also below 16); `default` (39 / 49) likewise.  `decide +kernel` over
+13 × 2 + 256 × 4 + 2 closed evaluations of the two models. -/
+theorem encoder_sgr_params_decoded :
+    encoderParamsOk Ansi.Cfg.repaired = true ∧ encoderParamsOk Ansi.Cfg.old = true :=
+  ⟨encoderParams_repaired, encoderParams_old⟩
+
+/-- The numbers the encoder writes for the 13 attributes, in bit order: 1-9, 21 (`underline2`), 51-53 (`frame`,
+`encircle`, `overline`) — each of which `encoder_sgr_params_decoded` shows to be read back. -/
+theorem encoder_attribute_numbers :
+    (List.range 13).map (fun i => (makeAnsiCodes (attrStyle i true)).toOption) =
+      [1, 2, 3, 4, 5, 6, 7, 8, 9, 21, 51, 52, 53].map (fun k => some (natStr k)) := attr_numbers
+
+/-- **truecolor_params_decoded.**  The form `38;2;r;g;b` / `48;2;r;g;b`, all `r g b ≤ 255`, every variant: it is what the
+encoder writes for `Color.from_rgb(r, g, b)`; the decoder splits it into exactly those five numbers; and from the null
+style the loop reaches, without raising, a style whose colour on that side is `from_rgb(r, g, b)` (name, type,
+triplet), the other side, all attributes and the link untouched. -/
+theorem truecolor_params_decoded (cfg : Ansi.Cfg) (fg : Bool) (r g b : Nat) (hr : r < 256) (hg : g < 256) (hb : b < 256) :
+    colorCodes (fromRgb r g b) fg = .ok ([if fg then 38 else 48, 2, r, g, b].map natStr) ∧
+    sgrCodes cfg (joinWith ';' ([if fg then 38 else 48, 2, r, g, b].map natStr)) = .ok [if fg then 38 else 48, 2, r, g, b] ∧
+    ∃ st', applyCodes cfg Style.null [if fg then 38 else 48, 2, r, g, b] 0 = (st', none) ∧
+      SetColor fg (fromRgb r g b) Style.null st' :=
+  truecolor_params cfg fg r g b hr hg hb
+
+example : ∃ st', applyCodes Ansi.Cfg.repaired Style.null [38, 2, 255, 136, 0] 0 = (st', none) ∧
+    SetColor true (fromRgb 255 136 0) Style.null st' :=
+  (truecolor_params_decoded Ansi.Cfg.repaired true 255 136 0 (by decide) (by decide) (by decide)).2.2
+
+/-- **sgr_reset_exact.**  Repaired variant: SGR 0 — written `ESC [ 0 m` or with the parameter omitted, `ESC [ m` —
+resets exactly, from ANY style: both parameter texts read as `[0]`, the loop does not raise, and the style reached has
+no colour, no attribute set and — OSC 8 not being part of the rendition — the link it had; without a link it is
+`Style.null()`. -/
+theorem sgr_reset_exact (cfg : Ansi.Cfg) (he : cfg.emptyIgnored = false) (hr : cfg.resetDropsLink = false) (st : Style) :
+    sgrCodes cfg [] = .ok [0] ∧ sgrCodes cfg ['0'] = .ok [0] ∧
+    applyCodes cfg st [0] 0 = (resetOf cfg st, none) ∧
+    fieldsOf (resetOf cfg st) =
+      (if strTruthy st.link then ⟨none, none, 0, 0, st.link, false⟩ else fieldsOf Style.null) :=
+  reset_exact cfg he hr st
+
+/-- a fully styled, linked state is reset to "link only" -/
+example : fieldsOf (resetOf Ansi.Cfg.repaired sampleStyle) = ⟨none, none, 0, 0, some ['h', ':', 'x'], false⟩ := by decide +kernel
+
+/-! ## The rest of `FileProxy`'s file-object surface: non-`str` writes, `writelines`, `flush` with nothing pending -/
+
+/-- **proxy_api_is_write_flush.**  Repaired variant: a history of `write(str)`, `flush()` and `writelines([str, …])` calls
+(`io.IOBase.writelines`: one `write` per element) does exactly what the `write` / `flush` history `flatOps h` does — same
+final buffer and decoder state, same prints in the same order — so `proxy_lines`, `proxy_chunking_irrelevant` and
+`proxy_verbatim` speak about `writelines` too. -/
+theorem proxy_api_is_write_flush (cfg : Ansi.Cfg) (hint : cfg.intRaises = false) (h : List ApiOp) (hs : allStr h = true) (p : Proxy) :
+    apiRun cfg p h = ((run cfg p (flatOps h)).1, (run cfg p (flatOps h)).2.map .ev) :=
+  apiRun_str cfg (decodeLine_total cfg hint) h hs p
+
+/-- **proxy_api_noops.**  Every variant, every proxy state: `write(x)` with `x` not a `str` raises `TypeError` and changes
+nothing (pending text and decoder state kept, nothing printed); `write("")` does nothing; `flush()` with nothing pending
+does nothing (no empty line is printed). -/
+theorem proxy_api_noops (cfg : Ansi.Cfg) (p : Proxy) :
+    apiWrite cfg p .notStr = (p, [.typeError]) ∧ p.write cfg [] = (p, []) ∧
+    (p.buffer = [] → ∀ b, p.flush cfg b = (p, [])) :=
+  ⟨write_notStr cfg p, write_empty cfg p, fun h b => flush_empty cfg p b h⟩
+
+example : allStr [.write (.str ['a']), .writelines [.str ['b', '\n'], .str ['c']], .flush] = true := by decide
+example : flatOps [.write (.str ['a']), .writelines [.str ['b', '\n'], .str ['c']], .flush] =
+    [.write ['a'], .write ['b', '\n'], .write ['c'], .flush false] := by decide
+/-- a non-`str` element ends `writelines` with `TypeError`; what was written before it stays pending -/
+example : (apiRun Ansi.Cfg.repaired Proxy.init [.writelines [.str ['a'], .notStr, .str ['b']]]) =
+    (⟨[['a']], Style.null⟩, [.typeError]) := by decide +kernel
 
 end RichModel.C19
